@@ -706,7 +706,7 @@ def ac_leg(ctx, kind, specs, build_policy=None):
         nS = env.nS
         for variant in range(ctx.n(2, 5)):
             act = ["relu", "tanh"][variant % 2]
-            depth = [2, 1, 0, 3, 2][variant % 5]
+            depth = [2, 0, 1, 3, 2][variant % 5]  # action_depth=0 (no hidden layer in the action head) is in both tiers
             try:
                 pol = build_policy(env, key=ctx.key(10_000 * si + variant), feature_size=6, feature_width=12,
                                    feature_depth=1, value_width=8, value_depth=1, action_width=12,
